@@ -19,7 +19,8 @@ RULE = ('all-cells: Hypothesis draws SI magnitudes/signs/zero flags for the two 
         f'evaluates EVERY operator cell: ordered pairs of 13 kinds + int + float x every unit of both x 4 '
         f'operators = {N_CELLS} cells per case, comparing outcome class, result kind (independent dimension '
         'table) and SI magnitude (independent SI table), plus the inverse laws (a+b)-b=a and a-b=-(b-a). '
-        'random-cell: Hypothesis draws one cell with wide magnitudes (1e-9..1e9, ints, zeros). '
+        'random-cell: Hypothesis draws one cell with wide magnitudes (1e-9..1e9, ints, zeros); a quarter of the operands '
+        'first go through a unit conversion (copy or in place), which must not change the outcome. '
         'Non-trivial = the two operands use different units / at least one unit is not the SI unit, so a '
         'computation on raw .value would be visible; distinct = canonical JSON of the case.')
 ASSUMPTIONS = [
@@ -327,14 +328,24 @@ def check_one_cell(case) -> Result:
     try:
         a = mk(ka, case.get('ua'), case['va'])
         b = mk(kb, case.get('ub'), case['vb'])
+        # metamorphic twist: an operand that went through a conversion (copy or in place) denotes the same magnitude
+        for which, pre in (('a', case.get('pre_a')), ('b', case.get('pre_b'))):
+            if pre and not _is_num(ka if which == 'a' else kb):
+                x = a if which == 'a' else b
+                units = list(U.UNITS[type(x).__name__])
+                x2 = x.to(units[pre['unit_ix'] % len(units)], inplace=pre['inplace'])
+                if which == 'a':
+                    a = x2
+                else:
+                    b = x2
     except ValueError:
         return Result(classes=('invalid-operand',))
     out = []
     c = check_cell(op, ka, kb, a, b, out)
     if not _is_num(ka) and not _is_num(kb) and _ROOT[ka] == _ROOT[kb]:
         inverse_laws(ka, kb, a, b, out)
-    res.classes = (f'outcome:{c}', f'op:{op}')
-    ua, ub = case.get('ua'), case.get('ub')
+    res.classes = (f'outcome:{c}', f'op:{op}') + (('pre-converted',) if case.get('pre_a') or case.get('pre_b') else ())
+    ua, ub = getattr(a, 'unit', None), getattr(b, 'unit', None)
     res.nontrivial = (ua != ub) and c in ('value', 'bad', 'ValueError')
     seen = set()
     for sig, msg in out:
@@ -383,6 +394,9 @@ def s_one_cell(draw):
         case['ua'] = draw(st.sampled_from(list(U.UNITS[ka])))
     if not _is_num(kb):
         case['ub'] = draw(st.sampled_from(list(U.UNITS[kb])))
+    for key in ('pre_a', 'pre_b'):
+        if draw(st.integers(0, 3)) == 0:
+            case[key] = {'unit_ix': draw(st.integers(0, 16)), 'inplace': draw(st.booleans())}
     return case
 
 
